@@ -4,7 +4,7 @@ CONSTANTS
   MaxLen = 6
 INVARIANTS
   SemPreserved
-  SemPreservedUpToPhase
+  OrigSem
   WellFormed
 VIEW View
 CHECK_DEADLOCK FALSE
